@@ -1370,6 +1370,12 @@ def _make_dual_use_func(func_ip, func_oop, domain, out_dtype):
                     if not out.flags.writeable:
                         out = out.copy()
 
+                # The result must own its data. Functions like the identity
+                # return (a view of) their input, which can be the sampling
+                # grid of a space.
+                if any(np.may_share_memory(out, xi) for xi in x):
+                    out = out.copy()
+
             elif tensor_valued:
                 # The out object can be any array-like of objects with shapes
                 # that should all be broadcastable to scalar_out_shape.
